@@ -283,26 +283,61 @@ theorem repetitions_sound_any_anchor (cfg : Config) (env : Env) (ws : List Str) 
   have := Dfa.carriesL_spells h2 hcounts
   rwa [hflat] at this
 
-/-- **C01 with repetition conversion, end to end on the model, all inputs** (`-r` with positive thresholds; no class option,
-case-sensitive, plain printing with at least one anchor in place; with or without capturing groups and `-e`): for every list of test cases each of at
-most 1000 graphemes (the regex crate's bound on a repetition count), every segmentation meeting its contract and every non-empty test
-case `t`: the text `Display for RegExp` writes is accepted by the model of `Regex::new`, and the compiled pattern matches `t` in full.
-Chain: S1–S4 (`rep_pipeline_sound`: the converted cluster expands to the test case), S5 (the trie stands for it whatever the widening
-merge does), S6 (stable partition for transition relations; this is where defect D17 was), S7 (`rep_final_expr`: the expression denotes
-the automaton's label sequences; well-formed: `rep_final_wfs`), S8/S9 (`parse_printedR`: the printed text with `x{m,n}` / `(?:unit){m,n}`
-and nested repetitions is read back as `bothR`; `Expr.soundR`: those items denote every string the labels spell; `matchP_exactC`: the
-matcher is exact on counted repetition) -/
-theorem repetitions_sound (cfg : Config) (hp : RepPrint cfg) (env : Env) (ws : List Str) (st : Stages)
+/-- **C01 with repetition conversion, end to end on the model, all inputs** (`-r` with positive thresholds; every subset of the class
+options, with or without capturing groups and `-e`; case-sensitive, plain printing, any anchors — with both disabled whichever of its
+three candidates `RegExp::from` keeps): for every list of
+test cases each of at most 1000 graphemes (the regex crate's bound on a repetition count), every segmentation meeting its contract and
+every non-empty test case `t`: the text `Display for RegExp` writes is accepted by the model of `Regex::new`, and the compiled pattern
+matches `t` in full.
+Chain: S1–S4 (`rep_pipeline_sound`: the converted cluster expands to the test case after class conversion), S5 (the trie stands for it
+whatever the widening merge does), S6 (stable partition for transition relations; this is where defect D17 was), S7 (`rep_final_expr`:
+the expression denotes the automaton's label sequences; well-formed: `rep_final_wfs`), S8/S9 (`parse_printedAR`: the printed text with
+`x{m,n}` / `(?:unit){m,n}` and nested repetitions is read back as `bothR`; `Expr.bothR_den`: those items denote exactly the strings the
+labels spell, atom by atom; `matchP_exactC`: the matcher is exact on counted repetition).  The case-insensitive counterpart is
+`C04.ci_sound_with_repetitions`. -/
+theorem repetitions_sound (cfg : Config) (hp : RepPrintNA cfg) (hci : cfg.ci = false) (env : Env) (ws : List Str) (st : Stages)
     (h : regExpFrom cfg env ws = .ok st) (hseg : ∀ w ∈ ws, Grexv.SegOK env w)
     (hlen : ∀ w ∈ ws, (clusterOfPieces (env.segOf w)).length ≤ 1000)
     (t : Str) (ht : t ∈ ws) (hne : t ≠ []) :
-    ∃ P, Spec.parse (fmtRegExp cfg st.finalAst) = some (⟨false, false⟩, P) ∧ Spec.fullMatch false P t = true :=
-  rep_end_to_end cfg hp env ws st h hseg hlen t ht hne
+    ∃ P, Spec.parse (fmtRegExp cfg st.finalAst) = some (⟨false, false⟩, P) ∧ Spec.fullMatch false P t = true := by
+  have hlen : ∀ w ∈ ws, (subPieces (env.segOf w)).length ≤ 1000 := fun w hw => by
+    have := hlen w hw; rwa [clusterOfPieces_eq, List.length_map] at this
+  have hsc : ∀ c ∈ t, Scalar c := by
+    obtain ⟨h1, h2⟩ := hseg t ht
+    intro c hc
+    rw [← h2] at hc
+    obtain ⟨p, hp, hcp⟩ := List.mem_flatten.mp hc
+    exact (h1 p hp).2 c hcp
+  have hst : storedCases cfg env ws = ws := by simp [storedCases, hci]
+  have := rep_end_to_end_na cfg hp env ws st h (by rw [hst]; exact hseg) (by rw [hst]; exact hlen) t (by rw [hst]; exact ht) hne t hsc
+  rw [hci] at this
+  apply this
+  have : ∀ u : Str, u.map (convAtom cfg) = u.map (Props.C03.docAtom cfg) :=
+    fun u => List.map_congr_left (fun c _ => Props.C03.convAtom_documented cfg c)
+  rw [this]
+  exact Props.C03.generalises_self cfg t
 
-/-- the settings are satisfiable: `-r` alone, `-r -g -e` with thresholds 2 and 3 -/
-example : RepPrint { rep := true } ∧ RepPrint { rep := true, cap := true, esc := true, minRep := 2, minLen := 3, noStart := true } :=
-  ⟨⟨rfl, by decide, ⟨rfl, rfl, rfl, rfl, rfl, rfl⟩, rfl, rfl, rfl, rfl, rfl⟩,
-   ⟨rfl, by decide, ⟨rfl, rfl, rfl, rfl, rfl, rfl⟩, rfl, rfl, rfl, rfl, rfl⟩⟩
+/-- the bound on the length is on what S4 receives: a test case of at most 1000 code points qualifies, whatever the segmentation -/
+theorem cluster_length_le (pieces : List Str) (hne : ∀ p ∈ pieces, p ≠ []) :
+    (clusterOfPieces pieces).length ≤ pieces.flatten.length := by
+  rw [clusterOfPieces_eq, List.length_map]
+  induction pieces with
+  | nil => simp [subPieces]
+  | cons p r ih =>
+    have ih := ih (fun q hq => hne q (List.mem_cons_of_mem _ hq))
+    have hp : 1 ≤ p.length := by
+      cases p with
+      | nil => exact absurd rfl (hne [] List.mem_cons_self)
+      | cons _ _ => simp
+    simp only [subPieces, List.flatMap_cons, List.length_append, List.flatten_cons] at ih ⊢
+    split
+    · simp only [List.length_map]; omega
+    · simp only [List.length_singleton]; omega
+
+/-- the settings are satisfiable: `-r` alone, `-r -g -e -d -w` with thresholds 2 and 3 and no start anchor -/
+example : RepPrintNA { rep := true } ∧
+    RepPrintNA { rep := true, cap := true, esc := true, digit := true, word := true, minRep := 2, minLen := 3, noStart := true, noEnd := true } :=
+  ⟨⟨rfl, by decide, rfl, rfl, rfl⟩, ⟨rfl, by decide, rfl, rfl, rfl⟩⟩
 
 /-- the input on which the unrepaired minimisation lost `ycc`, evaluated by the kernel on the model (the correspondence stream
 compares the same input with the implementation) -/
